@@ -517,22 +517,22 @@ func decodeInterval(data []byte) string {
 	}
 	us, days, months := i64(data, 0), i32(data, 8), i32(data, 12)
 	var parts []string
-	if y := months / 12; y > 0 {
+	if y := months / 12; y != 0 {
 		parts = append(parts, fmt.Sprintf("%dy", y))
 	}
-	if m := months % 12; m > 0 {
+	if m := months % 12; m != 0 {
 		parts = append(parts, fmt.Sprintf("%dmo", m))
 	}
-	if days > 0 {
+	if days != 0 {
 		parts = append(parts, fmt.Sprintf("%dd", days))
 	}
-	if h := us / 3600e6; h > 0 {
+	if h := us / 3600e6; h != 0 {
 		parts = append(parts, fmt.Sprintf("%dh", h))
 	}
-	if m := (us / 60e6) % 60; m > 0 {
+	if m := (us / 60e6) % 60; m != 0 {
 		parts = append(parts, fmt.Sprintf("%dm", m))
 	}
-	if s := (us / 1e6) % 60; s > 0 {
+	if s := (us / 1e6) % 60; s != 0 {
 		parts = append(parts, fmt.Sprintf("%ds", s))
 	}
 	if len(parts) == 0 {
